@@ -20,7 +20,37 @@ the statistics of the un-embedded ones.
 Everything that decides a verdict is computed here / in qv.ref from raw
 parameter arrays and basis matrices; quara is only asked for those arrays and
 for its own accessors (vec(tuple), hs(tuple), state(tuple), prob_dist[tuple]).
+
+History / combination steps (own RNG stream ``ctx.rng(1)``: the first pass of a
+case is unchanged).  They only create histories; every verdict is still "the
+product denotes the Kronecker product of the factors AS THEY ARE NOW, on the
+union of their subsystems in ascending name" / "embedding keeps the statistics":
+  * ``:re-used-operands``  the case's operand OBJECTS are multiplied a second time in
+    another argument order and grouping (state left on operands / their composite
+    systems / elemental systems by the first product);
+  * ``:via-copy`` / ``:via-generate_from_var``  the second product takes operands obtained
+    through ``copy()`` / ``generate_from_var(to_var())`` (judged by their own arrays);
+  * ``:sibling-same-names``  a second operand set on NEW elemental systems with the same
+    names and outcome counts (same or mirrored dimensions, other bases, other
+    values) goes through the same call tree (caches keyed by names / sizes / class);
+  * ``:after-set_zero``  product, public mutator ``set_zero()`` on that operand, product
+    again (expected: the zero operator; an exception there is counted, not judged -
+    the zero object is outside the property's physical factors);
+  * ``:veteran-operand``  one long-lived operand per type (fixed data, subsystem name 20)
+    is multiplied with an operand of every case of the shard, either side;
+  * ``:held-result``  at the end of the case the FIRST result is judged again against
+    its leaves (a result must not change because of later products);
+  * embedding: the same sources (or their copies) are embedded a second time into
+    OTHER qubits (``:second-embedding``), the first embedded objects are re-read
+    afterwards (``:held-result``), and a measurement process with a non-default
+    outcome ``shape`` is embedded (``:shaped-mprocess``; shape kept, statistics kept).
+Every verdict reached while a step is in progress (hook or driver) carries the step
+as a suffix of its ordinary key, with two exceptions that keep the ordinary key
+(one mechanism, one key; info carries ``history_step``): exceptions for valid
+operands, and the layout class of the known finding ``MProcess*MProcess ...
+second-factor-major``.
 """
+import contextlib
 import itertools
 import math
 import os
@@ -40,7 +70,12 @@ RULE = ("tensor_product over families State / Povm / Gate / MProcess / Gate+MPro
         "embeddings of (state, povm, gate, gate, mprocess) tuples for 1 and 2 qutrits. A case is distinct by (family, "
         "dimensions, names, argument order, grouping tree, call forms, rounded operand parameters) and non-trivial when "
         "the arguments are out of ascending-name order, or there are >= 3 arguments / a nesting, or the factors carry "
-        "outcomes, or the dimensions are mixed, or it is an embedding")
+        "outcomes, or the dimensions are mixed, or it is an embedding. HISTORY steps after the first pass of every case "
+        "(same oracles): the operand objects multiplied again in another order / grouping, operands obtained through copy() / "
+        "generate_from_var, a sibling operand set on new systems with the same names, product - set_zero() - product, a "
+        "long-lived veteran operand shared by all cases of a shard, the first result judged again at the end; embeddings: "
+        "second embedding of the same sources (or copies) into other qubits, first results re-read, MProcess with a "
+        "non-default outcome shape")
 ANCHORS = [
     "quara/objects/operators.py:tensor_product",
     "quara/objects/operators.py:_tensor_product",
@@ -81,6 +116,7 @@ ASSUMPTIONS = [
 ]
 
 TP, TF = 1e-10, 1e-7
+KNOWN_MP_LAYOUT = "layout-vs-shape:second-factor-major"
 PROFILE = bool(os.environ.get("QV_C07_PROFILE"))  # per-unit CPU counters (cost calibration only)
 QOP = ("State", "Povm", "Gate", "MProcess", "StateEnsemble")
 BASIS = ("MatrixBasis", "SparseMatrixBasis")
@@ -406,6 +442,17 @@ class Judge:
         self._exc = []
         self.status = {}  # id(result) -> (result, status dict)
         self.embedded = []  # (source, result, e_sys names) seen by the embed hook
+        self.step = ""  # name of the history step in progress (hooks: info only; ordinary keys)
+        self.lenient = False  # step whose operands are outside the property's quantifier: an exception is counted only
+
+    @contextlib.contextmanager
+    def in_step(self, name, lenient=False):
+        old = (self.step, self.lenient)
+        self.step, self.lenient = name, lenient
+        try:
+            yield
+        finally:
+            self.step, self.lenient = old
 
     # ---------------------------------------------------------- helpers
     def keybase(self, facs, arr):
@@ -425,21 +472,24 @@ class Judge:
         return r[1] if r is not None and r[0] is result else None
 
     # ------------------------------------------------- tensor_product
-    def judge(self, result, elems, where):
-        """post-condition of one tensor product `result` of the operands `elems` (quara objects)"""
+    def judge(self, result, elems, where, suffix=""):
+        """post-condition of one tensor product `result` of the operands `elems` (quara objects); `suffix` names the
+        history step when the DRIVER judges inside one (hook verdicts keep their ordinary keys)"""
         ctx = self.ctx
         types = [tname(e) for e in elems]
         if types[0] in BASIS:
-            return self.judge_basis(result, elems, where)
+            return self.judge_basis(result, elems, where, suffix)
         facs = [Fac(e, self.views) for e in elems]
         arr = Arrange(facs)
         L, base = self.keybase(facs, arr)
         info = {"types": types, "names_in_argument_order": [f.v.names for f in facs], "dims": [f.v.dims for f in facs],
                 "factor_outcome_counts": [list(f.axes) for f in facs], "where": where}
+        if suffix or self.step:
+            info["history_step"] = suffix or self.step
         st = {"ok": False, "assign": None, "layout": None}
         want = fold_type(types)
         if tname(result) != want:
-            ctx.truth(f"{where}.result-type", False, key=f"{base}:result-type", info=dict(info, got=tname(result), want=want))
+            ctx.truth(f"{where}.result-type", False, key=f"{base}:result-type{suffix}", info=dict(info, got=tname(result), want=want))
             return st
         rf = Fac(result, self.views)
         info["result_names"] = rf.v.names
@@ -449,19 +499,19 @@ class Judge:
             for s in result.states:
                 es = list(s.composite_system.elemental_systems)
                 ok = ok and [e.name for e in es] == arr.names_sorted and [int(e.dim) for e in es] == arr.dims_sorted
-        ctx.truth(f"{where}.subsystem-order", ok, key=f"{base}:subsystem-order", info=info)
+        ctx.truth(f"{where}.subsystem-order", ok, key=f"{base}:subsystem-order{suffix}", info=info)
         if not ok:
             return st
         fax = [(k, l, c) for k, f in enumerate(facs) for l, c in enumerate(f.axes)]
         if not rf.axes and not fax:
             e = arr.combine([f.at(())[0] for f in facs])
             err = maxdiff(rf.at(())[0], e)
-            v = ctx.num(f"{where}.operator", err, TP, TF, key=f"{base}:operator", info=info)
+            v = ctx.num(f"{where}.operator", err, TP, TF, key=f"{base}:operator{suffix}", info=info)
             st["ok"] = v == "pass"
             return st
         # ---- outcome-bearing result: shape, then element at each multi-index through the accessor
         ok = sorted(rf.axes) == sorted(c for _, _, c in fax) and prod(rf.axes) == rf.n_flat
-        ctx.truth(f"{where}.shape-is-permutation", ok, key=f"{base}:shape-not-permutation", info=info)
+        ctx.truth(f"{where}.shape-is-permutation", ok, key=f"{base}:shape-not-permutation{suffix}", info=info)
         if not ok:
             return st
         cands = self.assignments(rf.axes, fax)
@@ -470,7 +520,7 @@ class Judge:
             return st
         ok_acc, table = ctx.attempt(lambda: {x: rf.at(x) for x in np.ndindex(*rf.axes)})
         if not ok_acc:
-            ctx.violation(f"{base}:accessor:" + ctx.exc_key(table), info)
+            ctx.violation(f"{base}:accessor:" + ctx.exc_key(table) + suffix, info)
             return st
         best, best_assign = float("inf"), None
         for assign in cands:
@@ -487,9 +537,10 @@ class Judge:
             cls = self.classify_layout(rf, facs, arr, best_assign)
             st["layout"] = cls
             if rf.t == "MProcess" and sum(1 for f in facs if f.t == "MProcess") >= 2:
-                key = f"tensor_product:MProcess*MProcess:{cls}"
+                # one mechanism, one key: the known second-factor-major layout is the same defect in every step
+                key = f"tensor_product:MProcess*MProcess:{cls}" + ("" if cls == KNOWN_MP_LAYOUT else suffix)
             else:
-                key = f"{base}:{cls}"
+                key = f"{base}:{cls}{suffix}"
             info = dict(info, unambiguous=len(cands) == 1, err=best)
         v = ctx.num(f"{where}.outcome-layout", best, TP, TF, key=key, info=info)
         st["ok"] = v == "pass"
@@ -570,7 +621,7 @@ class Judge:
         except Exception as e:  # noqa: BLE001 - classification only
             return f"layout-vs-shape:unclassified-{type(e).__name__}"
 
-    def judge_basis(self, result, elems, where):
+    def judge_basis(self, result, elems, where, suffix=""):
         ctx = self.ctx
         types = [tname(e) for e in elems]
         L = label_of(types)
@@ -578,13 +629,15 @@ class Judge:
         want = fold_type(types)
         st = {"ok": False}
         if tname(result) != want:
-            ctx.truth(f"{where}.result-type", False, key=f"{base}:result-type", info={"got": tname(result), "want": want})
+            ctx.truth(f"{where}.result-type", False, key=f"{base}:result-type{suffix}", info={"got": tname(result), "want": want})
             return st
         mats = [[ref.dense(b) for b in e] for e in elems]
         lens = [len(m) for m in mats]
         info = {"types": types, "dims": [m[0].shape[0] for m in mats], "lens": lens}
+        if suffix or self.step:
+            info["history_step"] = suffix or self.step
         got = [ref.dense(b) for b in result]
-        if not ctx.truth(f"{where}.basis-count", len(got) == prod(lens), key=f"{base}:count", info=info):
+        if not ctx.truth(f"{where}.basis-count", len(got) == prod(lens), key=f"{base}:count{suffix}", info=info):
             return st
         exp = [ref.kron_all([m[i] for m, i in zip(mats, idx)]) for idx in np.ndindex(*lens)]
         err = max(maxdiff(g, e) for g, e in zip(got, exp))
@@ -597,7 +650,7 @@ class Judge:
                     cls = "elements"
                     break
                 used.add(hit)
-            key = f"{base}:{cls}"
+            key = f"{base}:{cls}{suffix}"
         v = ctx.num(f"{where}.basis-elements", err, TP, TF, key=key, info=info)
         st["ok"] = v == "pass"
         return st
@@ -609,7 +662,9 @@ class Judge:
         if len(elems) < 2 or fold_type(types) is None:
             self.ctx.count("tensor_product.returned-for-undocumented-combination")
             return
-        st = self.judge(result, elems, "call")
+        # inside a history step the verdicts of this hook carry the step's suffix, except exceptions and the known
+        # MProcess*MProcess layout class (one mechanism, one key)
+        st = self.judge(result, elems, "call", suffix=self.step)
         self.remember(result, st)
 
     def exc_tp(self, exc, snap, *elements):
@@ -637,6 +692,11 @@ class Judge:
             return
         self.reported.add(id(exc))
         self._exc.append(exc)
+        if self.lenient:
+            ctx.count(f"history{self.step}:rejected-operand-outside-quantifier")
+            return
+        if self.step:
+            info["history_step"] = self.step
         ctx.truth("call.returns-for-valid-operands", False, key=f"{base}:" + ctx.exc_key(exc), info=info)
 
     # ------------------------------------------------------- embedding
@@ -665,20 +725,22 @@ class Judge:
         base = f"embed:{t}:q={q}"
         before = phys_violations(src)
         info = {"type": t, "qutrits": src.v.names, "qubits_given": [e.name for e in e_syss], "before": before}
+        if self.step:
+            info["history_step"] = self.step
         if tname(result) != t:
-            ctx.truth("embed.result-type", False, key=f"{base}:result-type", info=dict(info, got=tname(result)))
+            ctx.truth("embed.result-type", False, key=f"{base}:result-type{self.step}", info=dict(info, got=tname(result)))
             return
         rf = Fac(result, self.views)
         ok = rf.v.names == sorted(e.name for e in e_syss) and all(d == 2 for d in rf.v.dims) and rf.axes == src.axes
-        ctx.truth("embed.subsystems", ok, key=f"{base}:subsystems-or-shape", info=dict(info, result_names=rf.v.names, axes=[list(src.axes), list(rf.axes)]))
+        ctx.truth("embed.subsystems", ok, key=f"{base}:subsystems-or-shape{self.step}", info=dict(info, result_names=rf.v.names, axes=[list(src.axes), list(rf.axes)]))
         if not ok:
             return
         if max(before["eq"], before["ineq"]) > 1e-12:
             ctx.skip("embed.physicality")
         else:
             after = phys_violations(rf)
-            ctx.num("embed.physicality", after["eq"], TP, TF, key=f"{base}:physicality:eq", info=dict(info, after=after))
-            ctx.num("embed.physicality", after["ineq"], TP, TF, key=f"{base}:physicality:ineq", info=dict(info, after=after))
+            ctx.num("embed.physicality", after["eq"], TP, TF, key=f"{base}:physicality:eq{self.step}", info=dict(info, after=after))
+            ctx.num("embed.physicality", after["ineq"], TP, TF, key=f"{base}:physicality:ineq{self.step}", info=dict(info, after=after))
         self.embedded.append((qop, result))
 
     def exc_embed(self, exc, snap, qop, e_syss):
@@ -945,10 +1007,161 @@ def relabel(t, order):
     return tuple(relabel(c, order) for c in t)
 
 
+def build_operands(Q, ctx, spec, rng):
+    """the operands of one product case on NEW elemental systems: one per block of `spec`"""
+    typ, names, dims = spec["typ"], spec["names"], spec["dims"]
+    operands = []
+    for g, cnt, kt in zip(spec["groups"], spec["counts"], spec["kinds_t"]):
+        pool = MP_KINDS if typ in ("MProcess", "GateMProcess") else HERM_KINDS
+        es = [make_es(Q, names[i], dims[i], str(rng.choice(pool))) for i in g]
+        c_sys = Q.CompositeSystem(es)
+        operands.append(build_operand(Q, ctx, kt, c_sys, rng, cnt, spec["required"]))
+    return operands
+
+
+# ------------------------------------------------------------------- histories
+
+
+class Veterans:
+    """one long-lived qubit operand per type, on a subsystem name no case uses, built from FIXED data (so every run and
+    every replay of a shard builds the same ones); every case of the shard multiplies one of its operands with it"""
+
+    NAME = 20
+    COUNT = {"Povm": 7, "MProcess": 5}  # different from every outcome count the cases draw
+
+    def __init__(self, Q, ctx):
+        self.Q, self.ctx, self.objs = Q, ctx, {}
+
+    def get(self, typ):
+        o = self.objs.get(typ)
+        if o is None:
+            rng = np.random.default_rng([20260928, QOP.index(typ)])
+            es = make_es(self.Q, self.NAME, 2, "nggm" if typ in ("Gate", "MProcess") else "nherm")
+            o = build_operand(self.Q, self.ctx, typ, self.Q.CompositeSystem([es]), rng, self.COUNT.get(typ), False)
+            self.objs[typ] = o
+        return o
+
+
+def derive(ctx, o, how):
+    """an operand with the content of `o` obtained through a public route (judged by its OWN arrays afterwards)"""
+    t = tname(o)
+    if how == "same" or t not in ("State", "Povm", "Gate", "MProcess"):
+        return o
+    ok, c = ctx.attempt((lambda: o.copy()) if how == "copy" else (lambda: o.generate_from_var(o.to_var())))
+    if not ok or tname(c) != t:
+        ctx.count(f"history:step-unavailable:{how}:{t}")  # producing the object is C03 / C13 business
+        return o
+    return c
+
+
+def other_order(n, first_order, hr):
+    """a random argument order different from the first one (when there is one) and a random grouping tree"""
+    for _ in range(8):
+        order = [int(i) for i in hr.permutation(n)]
+        if order != list(first_order):
+            break
+    ts = trees(list(range(n)))
+    return relabel(ts[int(hr.integers(0, len(ts)))], order)
+
+
+# (probability of: re-used operands, provenance, sibling, set_zero), probability of that main step at all, of the veteran
+# step, of the held-result judgement - set from measured CPU so that the histories cost < half of the first passes
+_HIST_PLAN = {
+    "State": ((.35, .25, .2, .2), .8, .5, .5),
+    "Povm": ((.35, .25, .2, .2), .8, .5, .5),
+    "Ensemble": ((.45, .2, .1, .25), .5, .5, .3),
+    "Gate": ((.35, .25, .2, .2), .8, .5, .5),
+    "MProcess": ((.35, .25, .2, .2), .7, .4, .5),
+    "GateMProcess": ((.35, .25, .2, .2), .8, .5, .5),
+    "Joint": ((.35, .25, .2, .2), .7, .5, .5),
+}
+
+
+def history_product(ctx, J, ops, Q, vets, fam, spec, operands, args_tree, in_order, res, desc):
+    """history / combination steps of one product case (see the module docstring); `res` is the first result"""
+    hr = ctx.rng(1)
+    n = len(operands)
+    probs, p_main, p_vet, p_held = _HIST_PLAN[fam]
+    step = ("reuse", "prov", "sibling", "setzero")[int(hr.choice(4, p=probs))]
+    if hr.random() >= p_main:
+        step = "none"
+    first_order = leaves_of(args_tree)
+    ctx.count("history:step:" + step)
+
+    def product(tree, objs, suffix, lenient=False):
+        """one more product through the hooked function (hooks judge each call), then the driver's leaf judgement"""
+        leaves = [objs[i] for i in leaves_of(tree)]
+        with J.in_step(suffix, lenient=lenient):
+            ok, r = ctx.attempt(eval_tree, ops, tree, objs, hr)
+        if not ok:
+            if lenient:
+                ctx.count(f"history{suffix}:exception-not-judged")
+            elif id(r) not in J.reported:
+                fs = [Fac(o, J.views) for o in leaves]
+                ctx.violation(f"{J.keybase(fs, Arrange(fs))[1]}:unjudged-" + ctx.exc_key(r) + suffix, dict(desc, history_step=suffix))
+            return None
+        if len(leaves) > 2:  # (a pairwise product has just been judged against exactly these leaves by the hook)
+            J.judge(r, leaves, "history", suffix=suffix)
+        return r
+
+    if step == "none":
+        pass
+    elif step == "reuse":
+        product(other_order(n, first_order, hr), operands, ":re-used-operands")
+    elif step == "prov":
+        how = "copy" if hr.random() < 0.6 else "generate_from_var"
+        derived = [derive(ctx, o, how) for o in operands]
+        if any(d is not o for d, o in zip(derived, operands)):
+            product(other_order(n, first_order, hr) if hr.random() < 0.5 else args_tree, derived, ":via-" + how)
+        else:
+            product(other_order(n, first_order, hr), operands, ":re-used-operands")
+    elif step == "sibling":
+        spec2 = dict(spec)
+        if hr.random() < 0.5 and spec["typ"] != "Ensemble":
+            spec2["dims"] = list(reversed(spec["dims"]))  # same names, mirrored dimensions (same total size)
+        ok, sib = ctx.attempt(build_operands, Q, ctx, spec2, hr)
+        if ok:
+            product(args_tree, sib, ":sibling-same-names")
+        else:
+            ctx.count("history:step-unavailable:sibling")
+    else:
+        # product - public mutator set_zero() on one operand (a copy: the case's own operands stay as they are) - product
+        j, k = (int(i) for i in hr.choice(n, size=2, replace=False))
+        c = derive(ctx, operands[j], "copy")
+        if c is operands[j]:
+            product(other_order(n, first_order, hr), operands, ":re-used-operands")
+        else:
+            pair = [c, operands[k]] if hr.random() < 0.5 else [operands[k], c]
+            if product((0, 1), pair, ":via-copy") is not None:
+                ok, _ = ctx.attempt(c.set_zero)
+                if ok:
+                    product((0, 1), pair, ":after-set_zero", lenient=True)
+                else:
+                    ctx.count("history:step-unavailable:set_zero")
+    # ---- the shard's veteran of the matching type with one single-subsystem operand of this case, either side
+    if vets is not None and hr.random() < p_vet:
+        def single(o):  # channels: qubit partners only (cost of the 36x36 / 81x81 Liouville products)
+            f = Fac(o, J.views)
+            return len(f.v.names) == 1 and (f.kind == "op" or f.v.D == 2)
+
+        singles = [o for o in operands if single(o)]
+        if singles:
+            o = singles[int(hr.integers(0, len(singles)))]
+            t = tname(o)
+            vt = "State" if t == "StateEnsemble" else t
+            if spec["typ"] in ("MProcess", "GateMProcess") and hr.random() < 0.5:
+                vt = "Gate" if t == "MProcess" else "MProcess"  # (MProcess demands orthonormal identity-first bases: these families have them)
+            v = vets.get(vt)
+            product((0, 1), [v, o] if hr.random() < 0.5 else [o, v], ":veteran-operand")
+    # ---- the first result again, against its leaves, after everything above
+    if hr.random() < p_held:
+        J.judge(res, in_order, "history", suffix=":held-result")
+
+
 # --------------------------------------------------------------- case runners
 
 
-def run_product_case(ctx, J, ops, Q, fam, sub, dims, order, tree, rng):
+def run_product_case(ctx, J, ops, Q, fam, sub, dims, order, tree, rng, vets=None):
     """one (argument order, grouping) case of a product family"""
     views = J.views
     typ = sub or fam
@@ -987,12 +1200,8 @@ def run_product_case(ctx, J, ops, Q, fam, sub, dims, order, tree, rng):
         counts = [None] * nb
     big = prod(dims) >= 8
     required = (not big or typ in ("State", "Povm", "Ensemble")) and rng.random() < 0.5
-    operands = []
-    for g, cnt, kt in zip(groups, counts, kinds_t):
-        pool = MP_KINDS if typ in ("MProcess", "GateMProcess") else HERM_KINDS
-        es = [make_es(Q, names[i], dims[i], str(rng.choice(pool))) for i in g]
-        c_sys = Q.CompositeSystem(es)
-        operands.append(build_operand(Q, ctx, kt, c_sys, rng, cnt, required))
+    spec = dict(typ=typ, names=names, dims=list(dims), groups=groups, counts=counts, kinds_t=kinds_t, required=required)
+    operands = build_operands(Q, ctx, spec, rng)
     args_tree = relabel(tree, order)
     arg_order = leaves_of(args_tree)
     in_order = [operands[i] for i in arg_order]
@@ -1014,6 +1223,15 @@ def run_product_case(ctx, J, ops, Q, fam, sub, dims, order, tree, rng):
         return
     # ---- end-to-end against the LEAVES (independent of the per-call bookkeeping)
     st = J.judge(res, in_order, "fold")
+    first_pass_product_case(ctx, J, ops, views, fam, facs, arr, res, st, desc, rng)
+    t0 = time.process_time()
+    history_product(ctx, J, ops, Q, vets, fam, spec, operands, args_tree, in_order, res, desc)
+    if PROFILE:
+        ctx.count("prof_hist_ms:%s" % fam, int(1000 * (time.process_time() - t0)))
+
+
+def first_pass_product_case(ctx, J, ops, views, fam, facs, arr, res, st, desc, rng):
+    """end-to-end oracles of the first pass (product states stay product, gates act factor-wise, product statistics)"""
     rf = Fac(res, views)
     leaf_rho = [ref.rand_density(f.v.D, rng, int(rng.integers(1, f.v.D + 1))) for f in facs]
     rho_total = arr.combine(leaf_rho) if arr.kind == "op" else Arrange(_as_op(facs)).combine(leaf_rho)
@@ -1115,6 +1333,25 @@ def run_basis_case(ctx, J, ops, Q, fam, dims, order, tree, rng):
             ctx.violation(f"tensor_product:{cls.__name__}*{cls.__name__}:k={len(dims)}:unjudged-" + ctx.exc_key(res), desc)
         return
     J.judge(res, in_order, "fold")
+    # ---- history: the same basis OBJECTS in another order / grouping (or a sibling set of the same dimensions and other
+    # kinds through the same tree), then the first result again
+    hr = ctx.rng(1)
+    if hr.random() < 0.6:
+        objs, tree2, suffix = operands, other_order(len(dims), arg_order, hr), ":re-used-operands"
+    else:
+        objs = [cls([ref.dense(b) for b in gen.local_basis(d, str(hr.choice(BASIS_KINDS)))]) for d in dims]
+        tree2, suffix = args_tree, ":sibling-same-dims"
+    ctx.count("history:step:basis" + suffix)
+    leaves = [objs[i] for i in leaves_of(tree2)]
+    with J.in_step(suffix):
+        ok, res2 = ctx.attempt(eval_tree, ops, tree2, objs, hr)
+    if ok:
+        if len(leaves) > 2:
+            J.judge(res2, leaves, "history", suffix=suffix)
+    elif id(res2) not in J.reported:
+        ctx.violation(f"tensor_product:{cls.__name__}*{cls.__name__}:k={len(dims)}:unjudged-" + ctx.exc_key(res2) + suffix, desc)
+    if hr.random() < 0.5:
+        J.judge(res, in_order, "history", suffix=":held-result")
 
 
 def run_embed_case(ctx, J, QOperation, Q, nq, rng, ops=None):
@@ -1189,12 +1426,12 @@ def run_embed_case(ctx, J, QOperation, Q, nq, rng, ops=None):
         ok2, ea = ctx.attempt(emb, sa, q_sorted[0:2])
         ok3, eb = ctx.attempt(emb, sb, q_sorted[2:4])
         if ok1 and ok2 and ok3:
-            ok4, prod = ctx.attempt(ops.tensor_product, ea, eb)
+            ok4, prod_ab = ctx.attempt(ops.tensor_product, ea, eb)
             if ok4:
                 Bj = gen.basis_of(joint.composite_system)
-                Bp = gen.basis_of(prod.composite_system)
-                same_sys = [e.name for e in joint.composite_system.elemental_systems] == [e.name for e in prod.composite_system.elemental_systems]
-                err = float(np.max(np.abs(ref.op(Bj, joint.vec) - ref.op(Bp, prod.vec)))) if same_sys else float("inf")
+                Bp = gen.basis_of(prod_ab.composite_system)
+                same_sys = [e.name for e in joint.composite_system.elemental_systems] == [e.name for e in prod_ab.composite_system.elemental_systems]
+                err = float(np.max(np.abs(ref.op(Bj, joint.vec) - ref.op(Bp, prod_ab.vec)))) if same_sys else float("inf")
                 ctx.num("embed.commutes-with-tensor-product", err, TP, TF, key="embed:State:q=2:joint-embedding-differs-from-product-of-embeddings",
                         info=dict(desc, note="embed(rhoA (x) rhoB) vs embed(rhoA) (x) embed(rhoB)"))
     before = stats({k: src[k] for k in out})
@@ -1203,6 +1440,66 @@ def run_embed_case(ctx, J, QOperation, Q, nq, rng, ops=None):
         b, a = before[chain], after[chain]
         err = float(np.max(np.abs(a - b))) if a.shape == b.shape else float("inf")
         ctx.num("embed.statistics", err, TP, TF, key=f"embed:statistics:{chain}:q={nq}", info=dict(desc, before=b, after=a))
+    # ---- history: the same sources (or their copies) embedded a second time, into OTHER qubits (two qutrits: state and
+    # POVM only, for cost); each embedded set is compared with the statistics of the very objects that were embedded
+    t0 = time.process_time()
+    hr = ctx.rng(1)
+    how = "same" if hr.random() < 0.5 else "copy"
+    suffix = ":second-embedding" + ("" if how == "same" else ":via-copy")
+    ctx.count("history:step:embed" + suffix)
+    names_b = [int(x) for x in hr.permutation(pick_names(hr, 2 * nq))]
+    qubits_b = [make_es(Q, n, 2, "std") for n in names_b]
+    desc_b = dict(desc, history_step=suffix, qubit_names_given_second=names_b)
+    full = nq == 1 and hr.random() < 0.5
+    src_b = {k: derive(ctx, src[k], how) for k in (list(out) if full else ("state", "povm"))}
+    out_b = {}
+    with J.in_step(suffix):
+        for k, o in src_b.items():
+            ok, e = ctx.attempt(emb, o, list(qubits_b))
+            if ok:
+                out_b[k] = e
+            elif id(e) not in J.reported:
+                ctx.violation(f"embed:{tname(o)}:q={nq}:unjudged-" + ctx.exc_key(e) + suffix, desc_b)
+
+    def compare(b4, aft, sfx, info):
+        for chain in b4:
+            b, a = b4[chain], aft[chain]
+            err = float(np.max(np.abs(a - b))) if a.shape == b.shape else float("inf")
+            ctx.num("history.embed.statistics", err, TP, TF, key=f"embed:statistics:{chain}:q={nq}{sfx}", info=dict(info, before=b, after=a))
+
+    if "state" in out_b and "povm" in out_b:
+        compare(stats({k: src_b[k] for k in out_b}), stats(out_b), suffix, desc_b)
+        if nq == 1 and not full:
+            # option: a measurement process with a NON-DEFAULT outcome shape; the hook demands the same reported shape,
+            # here every outcome multi-index (through the objects' own accessor hs(tuple)) keeps its statistics
+            shape = [(2, 2), (2, 3), (3, 2)][int(hr.integers(0, 3))]
+            ok, mp = ctx.attempt(gen.rand_mprocess, c3, prod(shape), hr, None, shape=shape, is_physicality_required=bool(required))
+            if not ok:
+                ctx.count("history:step-unavailable:shaped-mprocess")
+            else:
+                with J.in_step(":shaped-mprocess"):
+                    ok, emp = ctx.attempt(emb, mp, list(qubits_b))
+                if not ok:
+                    if id(emp) not in J.reported:
+                        ctx.violation(f"embed:MProcess:q={nq}:unjudged-" + ctx.exc_key(emp) + ":shaped-mprocess", desc_b)
+                elif tuple(emp.shape) == tuple(shape):  # (a dropped shape is the hook's verdict embed.subsystems)
+                    def table(state, povm, m):
+                        fs, fp, fm = Fac(state, views), Fac(povm, views), Fac(m, views)
+                        r = fs.at(())[0].reshape(-1)
+                        ms = [fp.flat(i)[0] for i in range(fp.n_flat)]
+                        D = fs.v.D
+                        return np.array([[np.trace(e @ (fm.at(x)[0] @ r).reshape(D, D)) for e in ms] for x in np.ndindex(*shape)])
+
+                    ok, tabs = ctx.attempt(lambda: (table(src_b["state"], src_b["povm"], mp), table(out_b["state"], out_b["povm"], emp)))
+                    if ok:
+                        compare({"povm.mprocess(multi-index).state": tabs[0]}, {"povm.mprocess(multi-index).state": tabs[1]},
+                                ":shaped-mprocess", dict(desc_b, history_step=":shaped-mprocess", shape=list(shape)))
+                    else:
+                        ctx.violation(f"embed:MProcess:q={nq}:accessor:" + ctx.exc_key(tabs) + ":shaped-mprocess", desc_b)
+    # the first embedded objects again, after the later embeddings
+    compare(before, stats(out), ":held-result", dict(desc, history_step=":held-result"))
+    if PROFILE:
+        ctx.count("prof_hist_ms:Embed", int(1000 * (time.process_time() - t0)))
 
 
 # ------------------------------------------------------------------ run_shard
@@ -1215,6 +1512,7 @@ def run_shard(ctx):
         ctx.mark_inconclusive(f"reference self-test failed: {bad}")
         return
     hs, J, ops, QOperation = install(ctx)
+    vets = Veterans(Q, ctx)
     members = ctx.params["members"]
     us = units(ctx.tier)
     plan = []
@@ -1234,7 +1532,7 @@ def run_shard(ctx):
             elif fam in ("Basis", "SparseBasis"):
                 run_basis_case(ctx, J, ops, Q, fam, u["dims"], order, tree, rng)
             else:
-                run_product_case(ctx, J, ops, Q, fam, u.get("sub"), u["dims"], order, tree, rng)
+                run_product_case(ctx, J, ops, Q, fam, u.get("sub"), u["dims"], order, tree, rng, vets)
             if PROFILE:
                 ctx.count("prof_ms:%s:%s:%s" % (fam, u.get("sub"), "x".join(map(str, u["dims"]))), int(1000 * (time.process_time() - t_case)))
                 ctx.count("prof_n:%s:%s:%s" % (fam, u.get("sub"), "x".join(map(str, u["dims"]))))
